@@ -822,6 +822,42 @@ theorem feedback_line_fails (mk : Marks) (w : List Client)
     | none => simp [hk] at ha
     | some k => simp [hk, hnote, hmark] at ha
 
+open ConfModel.FeedbackLine ConfModel.ServerRunner.Spec in
+/-- **feedback_any_phase_fails.**  Feedback counts whenever the reference server prints it before it
+has ENDED: the runner reads the server's stderr until the server is gone, so the stream is what the
+server printed in every phase of its life (`Life.stderr`).  If the line the server's printer writes
+for case i of the batch stands in ANY phase — before the first request, while the batch is answered,
+after the last response, or during the graceful shutdown that follows the runner's abort — and the
+case is not marked, `Run` returns failure, whatever the client answered for it. -/
+theorem feedback_any_phase_fails (mk : Marks) (w : List Client)
+    (hne : ∀ s ∈ allScripts w, 0 < s.cases.length)
+    (hnamed : ∀ s ∈ allScripts w, s.names.length = s.cases.length)
+    (hd : (allNames w).Nodup)
+    (hex : ∀ n ∈ allNames w, (mk.failing n && mk.flaky n) = false)
+    (s : Script) (hs : s ∈ allScripts w) (i : Nat) (hi : i < s.cases.length)
+    (hstart : s.startErr = false) (href : s.isRef = true)
+    (nm text : List Char) (hnm : s.names[i]? = some nm)
+    (hsep : noSep nm = true) (hn : startsClean nm = true) (hnl : oneLine nm = true)
+    (ht : endsClean text = true) (htl : oneLine text = true)
+    (life : Life) (hall : ∀ l ∈ life.lines, oneLine l = true)
+    (hphase : (nm ++ ':' :: ' ' :: text) ∈ life.beforeFirst ∨ (nm ++ ':' :: ' ' :: text) ∈ life.during ∨
+      (nm ++ ':' :: ' ' :: text) ∈ life.afterLast ∨ (nm ++ ':' :: ' ' :: text) ∈ life.shutdown)
+    (herr : s.stderr = life.stderr)
+    (hmark : markOf mk (caseName s i) = .unmarked) :
+    Run mk w = false := by
+  have hmem : (nm ++ ':' :: ' ' :: text) ∈ life.lines := by
+    simp only [Life.lines, List.mem_append]
+    rcases hphase with h | h | h | h
+    · exact Or.inl (Or.inl (Or.inl h))
+    · exact Or.inl (Or.inl (Or.inr h))
+    · exact Or.inl (Or.inr h)
+    · exact Or.inr h
+  obtain ⟨a, b, hab⟩ := List.append_of_mem hmem
+  have hpre : ∀ l ∈ a, oneLine l = true := fun l hl => hall l (by rw [hab]; exact List.mem_append_left _ hl)
+  refine feedback_line_fails mk w hne hnamed hd hex s hs i hi hstart href nm text hnm hsep hn hnl ht htl
+    a hpre (streamOf b) ?_ hmark
+  rw [herr, Life.stderr, hab, streamOf_split, prefixLine_eq nm text ht]
+
 /-! ### non-vacuity: concrete runs -/
 
 def okServer : ServerFate :=
@@ -924,6 +960,18 @@ example :
     Run mk (fbWorld good) = false ∧ Run mk (fbWorld mangled) = true ∧ Run mk (fbWorld []) = true ∧
     ServerRunner.Spec.noSep "S/50%off".toList = true ∧ startsClean "S/50%off".toList = true ∧
     markOf mk "S/50%off" = .unmarked := by decide
+
+open ConfModel.FeedbackLine in
+/-- hypotheses of `feedback_any_phase_fails`: the complaint about `S/50%off` printed during the graceful
+shutdown (after the abort) fails the run like one printed before the first request; a reader whose pipe
+is closed at the abort (`stderrUntilAbort`, not the runner) would let the run succeed -/
+example :
+    let ln := "S/50%off: request should NOT include any HTTP trailers (1 trailer keys found)".toList
+    let late : Life := { beforeFirst := ["listening".toList], during := [], afterLast := [], shutdown := [ln, "bye".toList] }
+    let early : Life := { beforeFirst := [ln], during := [], afterLast := [], shutdown := [] }
+    let mk : Marks := { failing := fun _ => false, flaky := fun _ => false }
+    Run mk (fbWorld late.stderr) = false ∧ Run mk (fbWorld early.stderr) = false ∧
+    Run mk (fbWorld late.stderrUntilAbort) = true ∧ (∀ l ∈ late.lines, oneLine l = true) := by decide
 
 /-- a batch of two passing cases with the given names whose reference server wrote `line` -/
 def fbWorldN (n0 n1 : String) (line : List Char) : List Client :=
